@@ -140,3 +140,76 @@ func TestRegression_C03_F7_InterpolatedLowerBoundNextToPowerOfTwo(t *testing.T) 
 		t.Fatalf("F7 cubic (significand below 1): Index(%v)=%d Value=%v LowerBound=%v", v, i, cub2.Value(i), cub2.LowerBound(i))
 	}
 }
+
+func TestRegression_C05_F8_StoresAfterEveryCountUnderflowedToZero(t *testing.T) {
+	for name, s := range map[string]store.Store{"dense": store.NewDenseStore(), "sparse": store.NewSparseStore(), "paginated": store.NewBufferedPaginatedStore(), "collapsing_lowest": store.NewCollapsingLowestDenseStore(4), "collapsing_highest": store.NewCollapsingHighestDenseStore(4)} {
+		s.Add(0)
+		s.AddWithCount(3, 2)
+		_ = s.Reweight(0x1p-600)
+		_ = s.Reweight(0x1p-600)
+		if !s.IsEmpty() || s.TotalCount() != 0 {
+			t.Fatalf("F8 %s: after every count underflowed to 0: IsEmpty=%v TotalCount=%v", name, s.IsEmpty(), s.TotalCount())
+		}
+		for i := 100; i < 108; i++ {
+			s.Add(i)
+		}
+		n, lo, hi := 0, 1<<30, -(1 << 30)
+		s.ForEach(func(i int, c float64) bool {
+			if c != 0 {
+				n++
+			}
+			if c == 0 {
+				t.Fatalf("F8 %s: ForEach reports bin %d with weight 0", name, i)
+			}
+			lo, hi = min(lo, i), max(hi, i)
+			return false
+		})
+		mn, _ := s.MinIndex()
+		mx, _ := s.MaxIndex()
+		if mn != lo || mx != hi {
+			t.Fatalf("F8 %s: MinIndex/MaxIndex = %d/%d, non-empty bins span %d..%d", name, mn, mx, lo, hi)
+		}
+		if name[0] == 'c' && (n > 4 || hi-lo+1 > 4) {
+			t.Fatalf("F8 %s: %d bins over %d indexes with a limit of 4", name, n, hi-lo+1)
+		}
+	}
+	m, _ := mapping.NewLogarithmicMapping(0.01)
+	sk := ddsketch.NewDDSketch(m, store.NewSparseStore(), store.NewSparseStore())
+	_ = sk.Add(5)
+	_ = sk.Reweight(0x1p-600)
+	_ = sk.Reweight(0x1p-600)
+	if sk.GetCount() == 0 != sk.IsEmpty() {
+		t.Fatalf("F8: sketch with count %v reports IsEmpty=%v", sk.GetCount(), sk.IsEmpty())
+	}
+}
+
+func TestRegression_C11_F9_QuantileOneOfHugeTotal(t *testing.T) {
+	for _, p := range []store.Provider{store.DenseStoreConstructor, store.SparseStoreConstructor, store.BufferedPaginatedStoreConstructor} {
+		m, _ := mapping.NewLogarithmicMapping(0.01)
+		s := ddsketch.NewDDSketchFromStoreProvider(m, p)
+		_ = s.AddWithCount(-3, 0x1p20)
+		_ = s.Reweight(0x1p34)
+		if v, err := s.GetValueAtQuantile(1); err != nil || !(v < -2.9 && v > -3.1) {
+			t.Fatalf("F9: quantile 1 of a sketch holding only -3 (total weight 2^54) = %v, %v", v, err)
+		}
+		z := ddsketch.NewDDSketchFromStoreProvider(m, p)
+		_ = z.AddWithCount(0, 0x1p20)
+		_ = z.Reweight(0x1p34)
+		if v, err := z.GetValueAtQuantile(1); err != nil || v != 0 {
+			t.Fatalf("F9: quantile 1 of a sketch holding only zeros (total weight 2^54) = %v, %v", v, err)
+		}
+	}
+}
+
+func TestRegression_C17_F10_ChangeMappingKeepsWeightWithLargeTargetOffset(t *testing.T) {
+	a := 1e-5
+	g := (1 + a) / (1 - a)
+	src, _ := mapping.NewLogarithmicMappingWithGamma(g, 1e-7/math.Log(g))
+	tgt, _ := mapping.NewLogarithmicMappingWithGamma(3, 1.5e9)
+	s := ddsketch.NewDDSketch(src, store.NewDenseStore(), store.NewDenseStore())
+	_ = s.AddWithCount(1, 1000)
+	c := s.ChangeMapping(tgt, store.NewDenseStore(), store.NewDenseStore(), 1)
+	if got := c.GetCount(); math.Abs(got-1000) > 1e-6 {
+		t.Fatalf("F10: total weight %v after ChangeMapping, 1000 before", got)
+	}
+}
